@@ -6,6 +6,7 @@ import (
 	"testing"
 
 	"github.com/osteele/liquid"
+	"github.com/osteele/liquid/render"
 	"pgregory.net/rapid"
 
 	"verifharness/hx"
@@ -242,6 +243,46 @@ var c19Short = hx.Define("c19.short-final-tag", func(c *c19ShortCase, s *hx.Sub)
 	return nil
 })
 
+// a tag registered by the caller that expands objects in its argument (render.Context.ExpandTagArg)
+
+var c19Expand = hx.Define("c19.expand-tag-arg", func(c *c19ShortCase, s *hx.Sub) *hx.Violation {
+	eff := c19Effective(c.D)
+	if !c19Valid(eff) {
+		s.Exclude()
+		return nil
+	}
+	mk := func(d *[4]string) *liquid.Engine {
+		e := newEngine(nil)
+		if d != nil {
+			e.Delims(d[0], d[1], d[2], d[3])
+		}
+		e.RegisterTag("expand", func(ctx render.Context) (string, error) {
+			out, err := ctx.ExpandTagArg()
+			return "[" + out + "]", err
+		})
+		return e
+	}
+	toks := []hx.Tok{{Kind: hx.TText, Body: c.Pre}, {Kind: hx.TTag, Name: "expand", Body: "expand " + c.Name}}
+	custom := strings.ReplaceAll(strings.ReplaceAll(hx.Spell(toks, eff, nil), "((", eff.OL), "))", eff.OR)
+	deflt := strings.ReplaceAll(strings.ReplaceAll(hx.Spell(toks, hx.DefaultDelims, nil), "((", "{{"), "))", "}}")
+	b := map[string]any{"x": 1, "s": "str"}
+	oc, od := hx.RenderWith(mk(&c.D), custom, b), hx.RenderWith(mk(nil), deflt, b)
+	if oc.Panic != nil {
+		return hx.V("panic@"+oc.Panic.Site, "Delims(%q) on %q: %v", c.D, custom, oc.Panic)
+	}
+	if od.Panic != nil {
+		return hx.V("panic@"+od.Panic.Site, "%q: %v", deflt, od.Panic)
+	}
+	if !oc.Same(od) {
+		return hx.V("c19:expand-differs", "with Delims%q and a tag that expands its argument, %q renders %v\n   the same template with the default delimiters %q renders %v", c.D, custom, oc, deflt, od)
+	}
+	s.NT()
+	if s.WantSample() {
+		s.Sample(map[string]any{"delims": c.D, "template": custom, "output": oc.String()})
+	}
+	return nil
+})
+
 var c19Small = []string{"<", ">", "[", "]", "\\", "^"}
 
 func TestC19(t *testing.T) {
@@ -279,6 +320,20 @@ func TestC19(t *testing.T) {
 							sh.Run(&c19ShortCase{D: [4]string{ol, strings.Repeat(">", len(ol)), tt[0], tt[1]}, Pre: pre, Name: name})
 							sh.Run(&c19ShortCase{D: [4]string{ol, "]]", tt[0], tt[1]}, Pre: pre, Name: name})
 						}
+					}
+				}
+			}
+		}
+	}
+	ex := c19Expand.On(col, "exhaustive over a list: delimiter quadruples (lengths 1..3, positions left empty) x arguments of a caller-registered tag that calls ExpandTagArg: plain, with one and two objects, with a filter, with a failing object. Oracle: same result as the default spelling on a default engine with the same tag. Distinct by construction", true)
+	{
+		i := 0
+		for _, d := range [][4]string{{"<<", ">>", "<%", "%>"}, {"[", "]", "^", "\\"}, {"<<<", ">>>", "[", "]"}, {"", "", "<%", "%>"}, {"<<", ">>", "", ""}, {"[[", "]]", "[%", "%]"}} {
+			for _, arg := range []string{"plain", "a(( x ))b", "(( x ))", "(( s | upcase )) and (( x | plus: 1 ))", "a (( 1 | nosuchfilter )) b"} {
+				for _, pre := range []string{"", "t\n"} {
+					i++
+					if env.Mine(i) {
+						ex.Run(&c19ShortCase{D: d, Pre: pre, Name: arg})
 					}
 				}
 			}
